@@ -118,7 +118,10 @@ def main():
         d = os.path.join(root, 'm%d' % i)
         shutil.copytree(os.path.join(bdir, 'pysyncobj'), os.path.join(d, 'pysyncobj'))
         open(os.path.join(d, 'pysyncobj', fname), 'w').write(text)
-        pr = subprocess.Popen([sys.executable, __file__, '--worker', a.comp, d], stdout=subprocess.PIPE, stderr=subprocess.DEVNULL, env=env)
+        # the worker's output goes to a file: a pipe nobody reads blocks the worker once its buffer (64 KiB) is full
+        outf = open(os.path.join(d, 'out.json'), 'w')
+        pr = subprocess.Popen([sys.executable, __file__, '--worker', a.comp, d], stdout=outf, stderr=subprocess.DEVNULL, env=env)
+        outf.close()
         return (i, info, d, pr, time.time())
     while pending or running:
         while pending and len(running) < a.jobs:
@@ -137,7 +140,7 @@ def main():
                 continue
             running.remove(r)
             try:
-                fp = json.loads(pr.stdout.read())
+                fp = json.load(open(os.path.join(d, 'out.json')))
                 new_problem = next((x[2] for x, b in zip(fp, base) if len(x) > 1 and x[1] and not (len(b) > 1 and b[1])), None)
                 if new_problem is not None:
                     v = 'killed-by-monitor'
@@ -161,7 +164,7 @@ def main():
     for x in results:
         c[x['verdict']] = c.get(x['verdict'], 0) + 1
     lines = src.split('\n')
-    surv = sorted((x for x in results if x['verdict'] in ('survived', 'timeout')), key=lambda x: x['line'])
+    surv = sorted((x for x in results if x['verdict'] == 'survived'), key=lambda x: x['line'])
     for x in surv:
         x['source'] = lines[x['line'] - 1].strip()[:140]
     json.dump({'component': a.comp, 'file': fname, 'sites': len(sites), 'tried': len(idx), 'verdicts': c, 'survivors': surv,
@@ -169,6 +172,9 @@ def main():
     print('verdicts', c)
     for x in surv:
         print('SURVIVED %s:%d %s [%s]  %s' % (fname, x['line'], x['desc'], x['kind'], x['source']))
+    for x in results:
+        if x['verdict'] == 'timeout':
+            print('TIMEOUT %s:%d %s [%s]' % (fname, x['line'], x['desc'], x['kind']))
     shutil.rmtree(root, ignore_errors=True)
 
 
